@@ -1,6 +1,7 @@
 package main
 
 import (
+	"encoding/binary"
 	"github.com/foxboron/go-uefi/pkcs7"
 	encasn1 "encoding/asn1"
 	"math/big"
@@ -364,6 +365,21 @@ func runC19(c *Ctx) {
 			v |= 4
 		}
 		objs = append(objs, obj{"image", spec.build(rng).bytes, v, fmt.Sprintf("image/table=%v/signed=%d/reparsed=%v", len(spec.certs) > 0, v&3, v&4 != 0)})
+	}
+	// images whose certificate table carries eight bytes of slack behind its last entry (listing tolerates them)
+	for i := 0; i < c.N(3, 24); i++ {
+		spec := smallPESpec(rng)
+		if len(spec.certs) == 0 {
+			spec.certs = [][]byte{randBytes(rng, 1+rng.Intn(100))}
+		}
+		im := spec.build(rng)
+		for _, r := range im.regions {
+			if r.name == "cert-dir-entry" {
+				b := append(append([]byte{}, im.bytes...), make([]byte, 8)...)
+				binary.LittleEndian.PutUint32(b[r.start+4:], binary.LittleEndian.Uint32(b[r.start+4:])+8)
+				objs = append(objs, obj{"image", b, 0, "image/table-with-slack"})
+			}
+		}
 	}
 	if !c.Quick() {
 		if b, err := os.ReadFile("/repo/tests/data/binary/HelloWorld.efi.signed"); err == nil {
